@@ -165,7 +165,7 @@ def run_rustc(host, roots, shim, env_vec, steps):
 
 
 def gen_real_run(seed, goods, texts, option_sets):
-    r = c20.gen_run(seed, goods, goods, texts, option_sets)  # no ill-formed grammars in this tier
+    r = c20.gen_run(seed, goods, goods, texts, option_sets, edits=False)  # no ill-formed grammars in this tier; seed-drawn (and edited) grammars are dropped below anyway
     steps = []
     for st in r["scenario"]["steps"][:5]:
         if st["name"].startswith("gen:"):
